@@ -319,6 +319,11 @@ pub fn contexts(core: &str, d: &Delims, n: &Names, level: u8) -> Vec<String> {
     v.push(format!("\n{core}"));
     v.push(format!("{core}é"));
     v.push(format!("あ🧹 = 1;\n{core}"));
+    // many unclosed (stray) opening tags in front: each stays open for the rest of the document
+    v.push(format!(
+        "{}{core}",
+        (0..70).map(|i| format!("{}stray{i}{}\n", d.ds, d.de)).collect::<String>()
+    ));
     // enough text behind the document that a stale or doubled range lands in text, not past the end
     v.push(format!("{core}\n{}", (0..12).map(|i| format!("tail{i}();\n")).collect::<String>()));
     if level >= 2 {
@@ -362,17 +367,19 @@ fn bounds(p: P, tier: Tier) -> Bounds {
     };
     match tier {
         Tier::Quick => Bounds {
+            // C01 makes five calls per document and repeats everything on the plain build: one
+            // size smaller than the other document properties
             asts: vec![(
                 AstParams {
-                    max_lines: 6,
+                    max_lines: if p == P::C01 { 5 } else { 6 },
                     ..base
                 },
                 vec![0, 1, 6],
             )],
             ast_ctx: 1,
-            lines: vec![(5, true, vec![0], 3)],
+            lines: vec![(if p == P::C01 { 4 } else { 5 }, true, vec![0], 3)],
             tok_deep_pairs: vec![],
-            tok_n: 5,
+            tok_n: if p == P::C01 { 4 } else { 5 },
             // C01 also covers a spelling with leading / trailing spaces (index POOL.len())
             tok_pairs: if p == P::C01 { vec![0, 1, 8, gen::POOL.len()] } else { vec![0, 1, 8] },
             tok_ctx_n: 3,
